@@ -1,4 +1,4 @@
-import Proofs.Store.IavlProof
+import Proofs.Store.IavlProofBetween
 /-!
 # C05 — Existence and absence proofs are sound and complete
 
@@ -12,8 +12,10 @@ Assumptions, always explicit: `EncInj enc` / `KVInj encKV` (the amino layouts de
 `HNonEmpty H` and `HLen H` (hash outputs are non-empty and of one length); hash collisions are a
 disjunct of every soundness statement, carrying the two colliding preimages.
 
-What is *not* proved: completeness for an absent key strictly between two stored keys (the two-leaf
-proof built by the traversal callback); it is covered by the differential tie only.
+What is *not* proved: completeness for an absent key between two stored keys on the *unrepaired*
+prover, and — on the repaired one — in the corner where the successor is exactly `predecessor ‖ 0x00`
+(there the traversal callback compares path nodes with tree nodes by hash, so the statement needs
+collision-freeness); both are covered by the differential tie.
 -/
 namespace C05
 open IavlProof
@@ -66,6 +68,21 @@ theorem absence_complete_fixed (fx : Fixes) (hfx : fx.succKey = true) (hne : HNo
     rw [hn, hn]
     exact Bytes.le_of_lt (Bytes.lt_of_le_of_lt (succ_le_of_lt _ _ (hb _ (first_mem t))) (lt_succ _))
   · exact absence_complete_above' H enc fx hne t hw key ha (by rw [hn]; exact lt_succ key) (by rw [hn]; exact lt_succ _)
+
+/-- **absence_complete**, key strictly between two stored keys (repaired prover): the prover returns
+the two-leaf proof (predecessor with its path, successor with the left spine of the sibling subtree) and
+`AbsenceOp` accepts it.  `Exact`: routing keys are the smallest key of the right subtree (as IAVL keeps
+them); `hgap` excludes the corner `successor = predecessor ‖ 0x00`. -/
+theorem absence_complete_between (fx : Fixes) (hfx : fx.succKey = true) (hne : HNonEmpty H)
+    (t : Tree) (hw : WF t) (hx : Exact t) (key : Bytes)
+    (habs : ∀ e ∈ t.leaves, e.1 ≠ key) (hlo : ∃ e ∈ t.leaves, e.1 < key) (hhi : ∃ e ∈ t.leaves, key < e.1)
+    (hgap : ∀ e ∈ t.leaves, ∀ e' ∈ t.leaves, e'.1 ≠ e.1 ++ [0]) :
+    ∃ pr, queryProof H enc fx (some t) key = some (none, some pr) ∧
+      absenceOpRun H enc fx (some pr) key [] = .ok [Tree.hash H enc t] :=
+  absence_complete_between' H enc fx hfx hne t hw hx key habs hlo hhi hgap
+
+example : Exact (t4 [1] [2] [3]) :=
+  Exact.inner _ _ _ _ _ _ rfl (Exact.leaf _ _ _) (Exact.inner _ _ _ _ _ _ rfl (Exact.leaf _ _ _) (Exact.leaf _ _ _))
 
 example : (∀ e ∈ (t2 [1] [2]).leaves, e.1 < kc) := by
   intro e he; simp [t2, Tree.leaves] at he; rcases he with rfl | rfl
